@@ -120,7 +120,13 @@ def gen_common_opts(rng, objs, allow_transpose=True):
     o["transpose"] = allow_transpose and rng.random() < 0.5
     o["cbar"] = rng.random() < 0.25
     o["cmap"] = rng.choice(["magma", "viridis", "listed"])
-    gen_limits(rng, objs, o)
+    # explicit limits are chosen relative to the objectives that will actually be DRAWN (the "modified" frame carries a custom metric
+    # in its objective column): a user-supplied vmin above the largest drawn objective is an inconsistent request that matplotlib
+    # rightly rejects, not a property violation
+    drawn = [-0.5 * x + 1.25 + 0.001 * k for k, x in enumerate(objs)] if o["df"] == "modified" else objs
+    if o["df"] == "modified" and drawn:
+        drawn = drawn + [min(drawn) - 0.001 * len(drawn), max(drawn) + 0.001 * len(drawn)]   # row order of data() is not known here
+    gen_limits(rng, drawn, o)
     return o
 
 
@@ -568,9 +574,10 @@ def compare(case, r, m):
     if r["frame"] is not None and (r["frame_after"] != m["world"]["frame"] or not r["frame_raw_same"]):
         return D("world-frame", "the caller's data frame changed during plotting (model: unchanged, C20_pure)",
                  r["frame_after"], m["world"]["frame"])
-    if not stored_of(case, r) and (o["vmin"] is None or o["vmax"] is None) and ("error" in obs or "error" in m):
-        # nothing stored and no explicit colour limits: there is no "range of stored objectives"; np.min raises on an empty
-        # array (the model's Err ValueError) but not on an empty pandas column. Outside the property: only purity is compared.
+    if not stored_of(case, r) and (o["vmin"] is None or o["vmax"] is None):
+        # nothing stored and a colour limit left to its default: there is no "range of stored objectives"; np.min raises on an empty
+        # array (the model's Err ValueError) but not on an empty pandas column, and a 1-D mesh of blanks autoscales to matplotlib's
+        # own default. Outside the property: only purity is compared.
         return None
     if "error" in obs or "error" in m:
         if obs.get("error") != m.get("error"):
